@@ -148,4 +148,45 @@ def stage_c14(ctx, base_env):
         c14_pipeline(ctx, base_env, "b%d" % b, env)
 
 
-STAGES = {"c05": stage_c05, "c14": stage_c14}
+def stage_fuzz(ctx, base_env):
+    """bounded coverage-guided campaign (go test -fuzz) through the same property function; thorough tier only.
+    Native fuzzing cannot be pinned to a seed: a saved failing input is the reproducible unit."""
+    m = _imp()
+    pid, work, tconf = ctx["pid"], ctx["work"], ctx["tconf"]
+    fuzztime = tconf.get("fuzztime", "60s")
+    rdir = os.path.join(ROOT, "replays", pid)
+    before = set(glob.glob(os.path.join(rdir, "v-*.json")))
+    cache = os.path.join(work.dir, "fuzzcache")
+    env = dict(m.GOENV)
+    env.update(base_env)
+    env.update({"VERIF_FUZZ": "1", "VERIF_SHARD": "fuzz", "GOFLAGS": "-mod=mod"})
+    cmd = ["go", "test", "-vet=off", "-run", "^$", "-fuzz", "^Fuzz%s$" % pid, "-fuzztime", fuzztime,
+           "-test.fuzzcachedir", cache, "./props"]
+    t0 = time.time()
+    rc, out = m.run(cmd, env=env, cwd=HARNESS, timeout=tconf.get("fuzz_timeout", 1800))
+    # remove crashers that go test stored under the package (our own replay file is the reproducible unit)
+    import shutil
+    shutil.rmtree(os.path.join(HARNESS, "props", "testdata", "fuzz", "Fuzz" + pid), ignore_errors=True)
+    execs = 0
+    for mm in re.finditer(r"execs: (\d+)", out):
+        execs = max(execs, int(mm.group(1)))
+    new = sorted(set(glob.glob(os.path.join(rdir, "v-*.json"))) - before)
+    pf = os.path.join(work.dir, "fuzz.json")
+    json.dump({"property_id": pid, "rule": "", "evaluations": 0, "counters": {"native_fuzz_execs": execs, "native_fuzz_seconds": int(time.time() - t0)}}, open(pf, "w"))
+    ctx["partials"].append(pf)
+    if new:
+        for path in new[:1]:
+            try:
+                msg = json.load(open(path)).get("message", "")
+                m.log("  detail: (native fuzzing) " + msg[:1500].replace("\n", "\n  "))
+            except Exception:
+                pass
+            ctx["violations"].append("VIOLATION property=%s replay=%s" % (pid, path))
+        for path in new[1:]:
+            os.remove(path)
+    elif rc != 0:
+        ctx["inconcl"].append("native fuzzing ended with exit %s without a recorded case" % rc)
+        m.log(out[-3000:])
+
+
+STAGES = {"c05": stage_c05, "c14": stage_c14, "fuzz": stage_fuzz}
